@@ -37,6 +37,7 @@ HistFailed(c, steps) ==
 Failed(line) ==
    LET c == Norm(line.c) IN
    IF line.doc # "ok" THEN {"document_rejected"}
+   ELSE IF NoCallback(c) /\ c.accepts # {} THEN {"case_wellformed"}      \* without a callback no scheme is accepted
    ELSE FailedOf(c, line.verdict, line.parts)
         \cup (IF line.verdict \in {"crash", "hang"} THEN {} ELSE HistFailed(c, StepsOf(line)))
         \cup (IF "verdict3" \in DOMAIN line /\ FailedOf(c, line.verdict3, line.parts3) # {} THEN {"same_answer_after_a_validation_with_other_options"} ELSE {})
@@ -48,7 +49,7 @@ LineOK(line) ==
                                               parts |-> line.parts, want |-> FailingParts(Norm(line.c)), steps |-> StepsOf(line), class |-> Class(line, bad)])>>,
                            "violations.ndjson")
    /\ (line.doc # "ok"
-       \/ (/\ line.calls = ExpectedCalls(EffSec(line.c), {line.c.accepts[i] : i \in DOMAIN line.c.accepts})
+       \/ (/\ line.calls = (IF NoCallback(line.c) THEN <<>> ELSE ExpectedCalls(EffSec(line.c), {line.c.accepts[i] : i \in DOMAIN line.c.accepts}))
            /\ Len(StepsOf(line)) = Len(line.c.hist)
            /\ \A i \in DOMAIN line.c.hist :
                  StepsOf(line)[i].calls = ExpectedCalls(EffSec(View(line.c, line.c.hist[i])), {line.c.accepts[j] : j \in DOMAIN line.c.accepts}))
